@@ -21,3 +21,30 @@ package runtime
 //@   requires 0 <= i && i < len(labels)
 //@   ensures result == old(labels[i])
 //@   assigns heap
+
+// C19: the import index of a runtime. imports, importsByBuild and nextUniqueID
+// are touched only under index.lock and the id counter only grows.
+//@ monitor (*index).lock guards imports, importsByBuild, nextUniqueID invariant self.imports != nil && self.importsByBuild != nil rely self.nextUniqueID >= old(self.nextUniqueID)
+
+// (P) C19: "Values created by different contexts ... do not interfere": unique
+// ids are handed out under the lock, each exactly one larger than the last
+//@ func (*index).getNextUniqueID
+//@   arith nowrap
+//@   requires i != nil
+//@   ensures result == i.nextUniqueID && result > old(i.nextUniqueID)
+//@   assigns heap
+
+//@ func (*Runtime).LoadInstance
+//@   requires r != nil && r.index != nil
+//@   ensures result != nil ==> inDom(r.index.importsByBuild, inst) && r.index.importsByBuild[inst] == result
+//@   assigns heap
+
+//@ func (*Runtime).getNodeFromInstance
+//@   requires r != nil && r.index != nil
+//@   assigns heap
+
+//@ func (*Runtime).AddInst
+//@   may_panic
+//@   requires r != nil && r.index != nil
+//@   ensures r.index.imports[key] == p && r.index.importsByBuild[p] == key
+//@   assigns heap
